@@ -309,6 +309,20 @@ impl Transaction {
         }
     }
 
+    /// Returns the key that applying this transaction writes or deletes in `TensorStore`.
+    ///
+    /// Equal to `storage_key()` except for row-level table operations, which touch
+    /// `table:{table}:row:{row_id}`.
+    #[must_use]
+    pub fn write_key(&self) -> String {
+        match self {
+            Self::TableUpdate { table, row_id, .. } | Self::TableDelete { table, row_id } => {
+                format!("table:{table}:row:{row_id}")
+            },
+            other => other.storage_key(),
+        }
+    }
+
     #[must_use]
     pub fn hash(&self) -> [u8; 32] {
         let bytes = match bitcode::serialize(self) {
